@@ -1134,11 +1134,11 @@ class Duration(AnyAtomicType):
             seconds = -seconds - (days * 24 + hours) * 3600 - minutes * 60
 
         if cls is DayTimeDuration:
-            if months:
+            if months or y is not None or mo is not None:
                 raise ValueError('months must be 0 for %r' % cls.__name__)
             return cls(seconds=seconds)
         elif cls is YearMonthDuration:
-            if seconds:
+            if seconds or any(x is not None for x in (d, h, mi, s)):
                 raise ValueError('seconds must be 0 for %r' % cls.__name__)
             return cls(months=months)
         return cls(months=months, seconds=seconds)
